@@ -575,9 +575,12 @@ fn gen_ops(rng: &mut Rng, thorough: bool) -> Vec<String> {
   if rng.chance(1, 6) { conts.push(Cont::G); }
   let sync_conts = conts.clone();
   if rng.chance(1, 3) { conts.push(Cont::L(0)); if rng.chance(1, 3) { conts.push(Cont::L(1)); } }
+  // half of the cases keep every factory inside its own container (no F16, the cycle detector is exact there)
+  let cross = rng.chance(1, 2);
   let ntypes = rng.range(1, 3);
   let nkeys = rng.range(2, 5) as usize;
-  let keys: Vec<Key> = (0..nkeys).map(|_| gen_key(rng, ntypes)).collect();
+  let mut keys: Vec<Key> = vec![];
+  for _ in 0..nkeys { let k = gen_key(rng, ntypes); if !keys.contains(&k) { keys.push(k); } }
   let len = if thorough { rng.range(6, 60) } else { rng.range(4, 28) } as usize;
   let mut ops = vec![];
   let pick_key = |rng: &mut Rng| -> Key { if rng.chance(1, 12) { gen_key(rng, 6) } else { rng.pick(&keys).clone() } };
@@ -596,12 +599,12 @@ fn gen_ops(rng: &mut Rng, thorough: bool) -> Vec<String> {
         for _ in 0..nd {
           // one dependency in five is the same key in another container (decorator / override pattern)
           let (dc, dk) = if rng.chance(1, 10) && from.len() > 1 { (*rng.pick(from), k.clone()) }
-            else if rng.chance(3, 5) {
+            else if rng.chance(3, 4) {
               // mostly "downward" in the case's key order, so most graphs are acyclic
               let me = keys.iter().position(|x| x == &k).unwrap_or(0);
               if me + 1 < keys.len() { (c, keys[rng.range(me as u64 + 1, keys.len() as u64 - 1) as usize].clone()) } else { (*rng.pick(from), pick_key(rng)) }
             } else { (if rng.chance(1, 2) { c } else { *rng.pick(from) }, pick_key(rng)) };
-          let dc = if !matches!(c, Cont::L(_)) && matches!(dc, Cont::L(_)) { c } else { dc };
+          let dc = if !cross || (!matches!(c, Cont::L(_)) && matches!(dc, Cont::L(_))) { c } else { dc };
           deps.push(Dep { c: dc, k: dk, req: !rng.chance(1, 3) }.show());
         }
         ops.push(format!("{what} {} {} {}", c.show(), k.show(), deps.join(" ")).trim_end().to_string());
